@@ -555,7 +555,8 @@ class World:
                     return k
             return 0
 
-        d = 0 if (ctx.op.get('quiet') or ctx.op['k'] == 'repaircheck') else ctx.decide(chooser)
+        d = 0 if (ctx.op.get('quiet') or ctx.op.get('givecode') or ctx.op['k'] == 'repaircheck') \
+            else ctx.decide(chooser)
         self.log('s', ctx.index, pid, kind, pclass, d, size)
         if d == D_NONE:
             self._observe(ctx, kind, path, pclass)
@@ -712,7 +713,16 @@ class World:
             if op.get('strpath'):
                 kw['path'] = self.files[f]
             if 'code' in op:
-                kw['code'] = op['code']
+                kw['code'] = op['code'].encode('utf-8', 'surrogatepass') if op.get('as_bytes') else op['code']
+            elif op.get('givecode') and proc.ctx.start is not None and proc.ctx.start[0] is not None:
+                # an editor that hands over the file's current content together with its path
+                data = proc.ctx.start[0]
+                if op['givecode'] == 'str':
+                    try:
+                        data = python_bytes_to_unicode(data)
+                    except Exception:
+                        pass
+                kw['code'] = data
             elif op.get('fio'):
                 # a client that keeps one FileIO object per file and passes it instead of the path
                 from parso.file_io import FileIO
@@ -874,7 +884,7 @@ class World:
             self.count('probe.save_warning')
         # admissible contents
         if 'code' in op:
-            adm = [op['code']]
+            adm = [op['code'].encode('utf-8', 'surrogatepass') if op.get('as_bytes') else op['code']]
         else:
             f = op['f'] % len(self.files)
             c_now, m_now = ctx.start
